@@ -1,1 +1,137 @@
-// harnesses for this module
+// Harnesses over src/encode.rs (child module of `encode`: private items are reachable)
+use super::*;
+use crate::verif_env::refmodel;
+use crate::verif_env::*;
+
+fn enc_opts(max_partition_order: u32, use_rice2: bool) -> EncoderOptions {
+    EncoderOptions {
+        max_partition_order,
+        mid_side: true,
+        seektable_interval: None,
+        max_lpc_order: None,
+        window: Window::default(),
+        exhaustive_channel_correlation: false,
+        use_rice2,
+    }
+}
+
+// ===========================================================================
+// C01 / C02: residual coding.  write_residuals -> (bits) -> read_residuals and
+// -> the RFC reference model.  The Rice parameter estimate uses f64::log2,
+// which CBMC over-approximates as an arbitrary value: the claim therefore holds
+// for whatever parameter the estimate picks.
+// ===========================================================================
+
+macro_rules! residual_roundtrip {
+    ($name:ident, $order:expr, $n:expr, $mpo:expr, $rice2:expr, $toks:expr, $unwind:expr) => {
+        #[kani::proof]
+        #[kani::unwind($unwind)]
+        fn $name() {
+            let res: [i32; $n - $order] = kani::any();
+            let opts = enc_opts($mpo, $rice2);
+            let mut q = TokFifo::<$toks>::new();
+            let w = write_residuals(&opts, &mut q, $order, &res);
+            let wrote = w.is_ok() && !q.failed;
+            std::mem::forget(w);
+            if wrote {
+                // what the crate's decoder makes of it (C01)
+                let mut back = [0i32; $n - $order];
+                let mut q1 = q.rewound();
+                let r = <Hooks as DecodeHooks>::read_residuals_i32(&mut q1, $order, &mut back);
+                assert!(r.is_ok());
+                std::mem::forget(r);
+                assert!(q1.drained());
+                let mut i = 0;
+                while i < $n - $order {
+                    assert!(back[i] == res[i]);
+                    i += 1;
+                }
+                // what the RFC makes of it (C02)
+                let mut q2 = q.rewound();
+                let mut exp = [0i128; $n];
+                let v = refmodel::residuals(&mut q2, $order, $n, &mut exp);
+                assert!(v == refmodel::Verdict::Valid);
+                assert!(q2.drained());
+                let mut i = 0;
+                while i < $n - $order {
+                    assert!(exp[$order + i] == i128::from(res[i]));
+                    i += 1;
+                }
+            }
+            kani::cover!(wrote);
+        }
+    };
+}
+
+// @harness prop=C01,C02 tier=quick expect=pass timeout=900
+// @units encode::write_residuals encode::write_residuals::best_partitions encode::write_residuals::Partition::new decode::read_residuals
+// @bound block 2, predictor order 1 (1 residual, any i32), max partition order 0, 4-bit Rice parameters
+// @oracle writer Ok => crate decoder returns the residuals and consumes every bit; RFC reference model calls the section valid, consumes every bit and yields the same residuals
+residual_roundtrip!(c01_residuals_n2_o1_po0, 1, 2, 0, false, 8, 3);
+
+// @harness prop=C01,C02 tier=thorough expect=pass timeout=1800
+// @units encode::write_residuals decode::read_residuals
+// @bound block 4, predictor order 2 (2 residuals): the block <= 2 x order region; max partition order 2 (the encoder may split into 1, 2 or 4 partitions), 5-bit Rice parameters allowed
+residual_roundtrip!(c01_residuals_n4_o2_po2, 2, 4, 2, true, 16, 10);
+
+// @harness prop=C01,C02 tier=quick expect=pass timeout=1800
+// @units encode::write_residuals decode::read_residuals
+// @bound block 4, predictor order 2 (2 residuals), max partition order 2, residuals restricted to 8 bits
+// @assume residuals in -128..=127 (full range is the thorough harness c01_residuals_n4_o2_po2)
+#[kani::proof]
+#[kani::unwind(10)]
+fn c01_residuals_n4_o2_po2_small() {
+    let raw: [i8; 2] = kani::any();
+    let res = [i32::from(raw[0]), i32::from(raw[1])];
+    let opts = enc_opts(2, false);
+    let mut q = TokFifo::<16>::new();
+    let w = write_residuals(&opts, &mut q, 2, &res);
+    let wrote = w.is_ok() && !q.failed;
+    std::mem::forget(w);
+    if wrote {
+        let mut back = [0i32; 2];
+        let mut q1 = q.rewound();
+        let r = <Hooks as DecodeHooks>::read_residuals_i32(&mut q1, 2, &mut back);
+        assert!(r.is_ok());
+        std::mem::forget(r);
+        assert!(q1.drained());
+        assert!(back[0] == res[0] && back[1] == res[1]);
+    }
+    kani::cover!(wrote);
+}
+
+// ===========================================================================
+// C01: LPC prediction inverse
+// ===========================================================================
+
+// @harness prop=C01 tier=quick expect=pass timeout=900
+// @units encode::LpcSubframeParameters::encode_residuals decode::predict<i32>
+// @bound LPC order 1, 3 samples (any i32), coefficient any 15-bit signed value, shift 0..=15
+// @oracle encoder returned Ok => predict(warm-up ++ residuals) == the channel, with no overflow in the decoder half
+#[kani::proof]
+#[kani::unwind(6)]
+fn c01_lpc_inverse_o1_n3() {
+    let ch: [i32; 3] = kani::any();
+    let c: i16 = kani::any();
+    kani::assume(c >= -16384 && c < 16384);
+    let shift: u32 = kani::any();
+    kani::assume(shift <= 15);
+    let mut coefficients = ArrayVec::<i32, MAX_LPC_COEFFS>::new();
+    coefficients.push(i32::from(c));
+    let params = LpcParameters {
+        order: NonZero::new(1).unwrap(),
+        precision: SignedBitCount::new::<15>(),
+        shift,
+        coefficients,
+    };
+    let mut residuals: Vec<i32> = Vec::with_capacity(4);
+    let r = LpcSubframeParameters::encode_residuals(&params, &ch, &mut residuals);
+    if let Ok((warm, res)) = r {
+        assert!(warm.len() == 1 && res.len() == 2);
+        let mut back = [warm[0], res[0], res[1]];
+        <Hooks as DecodeHooks>::predict_i32(&[i64::from(c)], shift, &mut back);
+        assert!(back[0] == ch[0] && back[1] == ch[1] && back[2] == ch[2]);
+    }
+    kani::cover!(r.is_ok());
+    std::mem::forget(residuals);
+}
